@@ -28,7 +28,7 @@ func init() {
 		},
 		Run: runC01,
 		Rule: "each case is a generated script (3-8 sessions over local/rawsocket/websocket with distinct authid/authrole/team, 20-60 steps of " +
-			"SUBSCRIBE/UNSUBSCRIBE(own, foreign, unknown)/PUBLISH with random acknowledge, exclude_me, exclude, eligible, exclude_*/eligible_* options, joins and departures) " +
+			"SUBSCRIBE/UNSUBSCRIBE(own, foreign, unknown)/PUBLISH (35% of the realms with 1-3 event-history topics) with random acknowledge, exclude_me, exclude, eligible, exclude_*/eligible_* options, joins and departures) " +
 			"run in lock-step against the pubsub reference model with a catch-all observer; non-trivial = the script contains a publication with >=1 predicted receiver and " +
 			">=1 subscriber cut by exclude_me or a filter, on a table holding >=2 match policies; distinct = hash of the canonical script",
 		Required: []string{"PS1", "PS2", "PS3", "PS4", "PS5", "PS6", "PS7", "PS8", "PS9"},
@@ -92,6 +92,10 @@ func runC01(c *Case) {
 	g := newScriptGen(c)
 	r := c.Rng
 	realm := RealmSetup{RealmSpec: model.RealmSpec{Name: "realm1", Strict: chance(r, 30), AllowDisclose: chance(r, 50)}}
+	if chance(r, 35) {
+		// topics with event history keep their subscription while nobody is subscribed
+		realm.History = randomHistory(r)
+	}
 	nPup := 3 + r.IntN(6)
 	netPct := 50
 	if c.Tier == "quick" {
